@@ -549,6 +549,15 @@ func (E *Engine) typeByName(s string) types.Type {
 	// "*pkg.T" or "pkg.T" for repo packages
 	ptr := strings.HasPrefix(s, "*")
 	n := strings.TrimPrefix(s, "*")
+	if strings.ContainsAny(n, "[]( ") {
+		if sp := E.P.SSAPkg[modPath+"/builtInFunctions"]; sp != nil {
+			if tv, err := types.Eval(E.P.Fset, sp.Pkg, token.NoPos, s); err == nil && tv.Type != nil {
+				E.typesByName[s] = tv.Type
+				return tv.Type
+			}
+		}
+		return nil
+	}
 	i := strings.LastIndex(n, ".")
 	if i < 0 {
 		return nil
@@ -564,6 +573,14 @@ func (E *Engine) typeByName(s string) types.Type {
 				E.typesByName[s] = t
 				return t
 			}
+		}
+	}
+	// a type expression evaluated in the scope of package builtInFunctions (e.g. "map[string]uint64",
+	// "vmcommon.BaseOperationCost")
+	if sp := E.P.SSAPkg[modPath+"/builtInFunctions"]; sp != nil && !ptr {
+		if tv, err := types.Eval(E.P.Fset, sp.Pkg, token.NoPos, s); err == nil && tv.Type != nil {
+			E.typesByName[s] = tv.Type
+			return tv.Type
 		}
 	}
 	// dependencies
